@@ -1,7 +1,8 @@
 """Driver configuration for C17."""
 
 CFG = dict(
-    tests=["TestC17", "TestC17Plugin"],
+    tests=["TestC17", "TestC17Plugin", "c16:TestC17Obs"],
+    case_files={"cases_obsfilter": "c16:TestC17Obs", "cases": "c17:TestC17", "cases_plugin": "c17:TestC17Plugin"},
     n_quick=120, n_thorough=1200, shards_thorough=4,
     rule="corpus + ~55 boundary families (single accept; accept+perform; accept+stale; log below min confirmations then enough; "
          "log before accept; re-orged perform to a later / earlier / the same block; perform then stale and reverse; several logs in one "
